@@ -80,6 +80,22 @@ M = [
  ("C09__sampler_nine_tries", "secec/ecdsa.go", "for i := 0; i < maxScalarResamples; i++ {", "for i := 0; i <= maxScalarResamples; i++ {"),
  ("C09__read_error_ignored", "secec/ecdsa.go", "\t\tif _, err := io.ReadFull(rand, tmp[:]); err != nil {\n\t\t\treturn nil, fmt.Errorf(\"%w: %w\", errEntropySource, err)\n\t\t}\n\n\t\t_, didReduce", "\t\t_, _ = io.ReadFull(rand, tmp[:])\n\n\t\t_, didReduce"),
  ("C09__sentinel_ignored", "secec/ecdsa.go", "\tcase readerRFC6979SHA256:\n\t\treturn newDrbgRFC6979(k.scalar, e), nil\n\tcase nil:", "\tcase nil, readerRFC6979SHA256:"),
+ ("C13__odd_y_accepted", "secec/bitcoin/schnorr.go", "\tif rYIsOdd != 0 {\n\t\treturn false\n\t}", "\tif rYIsOdd > 1 {\n\t\treturn false\n\t}"),
+ ("C13__r_not_canonical", "secec/bitcoin/schnorr.go", "if !field.BytesAreCanonical((*[field.ElementSize]byte)(sigRXBytes)) {", "if false && !field.BytesAreCanonical((*[field.ElementSize]byte)(sigRXBytes)) {"),
+ ("C13__challenge_tag", "secec/bitcoin/schnorr.go", "schnorrTagChallenge = \"BIP0340/challenge\"", "schnorrTagChallenge = \"BIP0340/challeng3\""),
+ ("C13__e_not_negated", "secec/bitcoin/schnorr.go", "\te.Negate(e)\n\tR := secp256k1.NewIdentityPoint().DoubleScalarMultBasepointVartime(s, e, k.point)", "\te.Negate(e).Negate(e)\n\tR := secp256k1.NewIdentityPoint().DoubleScalarMultBasepointVartime(s, e, k.point)"),
+ ("C13__challenge_order", "secec/bitcoin/schnorr.go", "eBytes := schnorrTaggedHash(schnorrTagChallenge, sigRXBytes, pkXBytes, msg)", "eBytes := schnorrTaggedHash(schnorrTagChallenge, pkXBytes, sigRXBytes, msg)"),
+ ("C13__identity_R", "secec/bitcoin/schnorr.go", "\tif R.IsIdentity() != 0 {\n\t\treturn false\n\t}", "\tif R.IsIdentity() > 1 {\n\t\treturn false\n\t}"),
+ ("C13__pubkey_odd_prefix", "secec/bitcoin/schnorr.go", "ptBytes[0] = 0x02", "ptBytes[0] = 0x03"),
+ ("C13__x_mismatch_ignored", "secec/bitcoin/schnorr.go", "\tif !bytes.Equal(rXBytes, sigRXBytes) {\n\t\treturn false\n\t}", "\tif !bytes.Equal(rXBytes[:31], sigRXBytes[:31]) {\n\t\treturn false\n\t}"),
+ ("C14__nonce_no_aux", "secec/bitcoin/schnorr.go", "subtle.XORBytes(t[:], schnorrTaggedHash(schnorrTagAux, auxRand[:]), d.Bytes())", "subtle.XORBytes(t[:], make([]byte, 32), d.Bytes())"),
+ ("C14__k_not_negated", "secec/bitcoin/schnorr.go", "k := secp256k1.NewScalar().ConditionalNegate(kPrime, rYIsOdd)", "k := secp256k1.NewScalar().ConditionalNegate(kPrime, rYIsOdd&0)"),
+ ("C14__s_formula", "secec/bitcoin/schnorr.go", "sum.Add(k, sum)                             // k + ed", "sum.Subtract(k, sum)                        // k + ed"),
+ ("C14__d_not_normalised", "secec/bitcoin/schnorr.go", "priv.d = secp256k1.NewScalar().ConditionalNegate(priv.dPrime, negateD)", "priv.d = secp256k1.NewScalar().ConditionalNegate(priv.dPrime, negateD&0)"),
+ ("C14__frompoint_no_negate", "secec/bitcoin/schnorr.go", "pt.ConditionalNegate(pt, pt.IsYOdd())", "pt.ConditionalNegate(pt, pt.IsYOdd()&0)"),
+ ("C14__nonce_tag", "secec/bitcoin/schnorr.go", "schnorrTagNonce     = \"BIP0340/nonce\"", "schnorrTagNonce     = \"BIP0340/aux\""),
+ ("C14__msg_not_in_nonce", "secec/bitcoin/schnorr.go", "rand := schnorrTaggedHash(schnorrTagNonce, t[:], pBytes, msg)", "rand := schnorrTaggedHash(schnorrTagNonce, t[:], pBytes)"),
+ ("C14__aux_short_read", "secec/bitcoin/schnorr.go", "if _, err := io.ReadFull(rand, auxEntropy[:]); err != nil {", "if _, err := io.ReadFull(rand, auxEntropy[:16]); err != nil {"),
  ("C11__negE_dropped", "secec/ecdsa.go", "u1 := secp256k1.NewScalar().Multiply(negE, rInv)", "u1 := secp256k1.NewScalar().Multiply(e, rInv)\n\t_ = negE"),
  ("C11__id_bound", "point_s11n.go", "if recoveryID >= 4 {", "if recoveryID > 4 {"),
  ("C11__s_zero_allowed", "secec/ecdsa.go", "if r.IsZero() != 0 || s.IsZero() != 0 {\n\t\treturn nil, errInvalidRorS\n\t}\n\n\t// This roughly", "if r.IsZero() != 0 {\n\t\treturn nil, errInvalidRorS\n\t}\n\n\t// This roughly"),
